@@ -187,6 +187,7 @@ func (tr *Tr) instr(fr *frame, ins ssa.Instruction) {
 			s := app("bytes2str", arr, app("s.off", v.T), app("s.len", v.T))
 			set(x, s)
 			tr.assume(fr.curReach, eq(app("slen", fr.vals[x].T), app("s.len", v.T)))
+			tr.allocRequest(fr, app("s.len", v.T), x.Pos(), "string(bytes)")
 		case isByteSlice(dt) && isString(st):
 			ref := tr.alloc(fr, "strbytes")
 			n := app("slen", v.T)
@@ -565,7 +566,11 @@ func (tr *Tr) binop(fr *frame, x *ssa.BinOp, set func(ssa.Value, string)) {
 	if term == "" {
 		vfail("unsupported binop %v", x.Op)
 	}
-	if fr.contract != nil && fr.contract.NoOverflow && fr.top {
+	rangeStep := false
+	if phi, ok := x.X.(*ssa.Phi); ok && phi.Comment == "rangeindex" && x.Op == token.ADD {
+		rangeStep = true // hidden index of a range loop: stays below a length, cannot overflow
+	}
+	if fr.contract != nil && fr.contract.NoOverflow && fr.top && !rangeStep {
 		tr.overflow(fr, x.Op, a.T, b.T, uns, w, x.Pos())
 	}
 	set(x, term)
@@ -837,6 +842,7 @@ func (tr *Tr) frameCheck(fr *frame, env *specEnv, pos token.Pos) {
 		ks = C.sortedHeapKeys()
 	}
 	sort.Strings(ks)
+	var restGoals, restKeys []string
 	for _, k := range ks {
 		if k == "ALLOC" {
 			continue
@@ -852,7 +858,7 @@ func (tr *Tr) frameCheck(fr *frame, env *specEnv, pos token.Pos) {
 		r := tr.declareConst("Int", "frame_r")
 		conds := []string{tr.preExisting(r, fr.entryA)}
 		var goal string
-		if tg != nil && len(tg.inner) > 0 && len(tg.refs) == 0 {
+		if tg != nil && len(tg.inner) > 0 && len(tg.refs) == 0 && len(tg.since) == 0 {
 			// assigned: particular inner indices of particular objects (map entries / slice elements)
 			srt := C.heapSort[k]
 			isort := innerIndexSort(srt)
@@ -867,10 +873,26 @@ func (tr *Tr) frameCheck(fr *frame, env *specEnv, pos token.Pos) {
 				for _, a := range tg.refs {
 					conds = append(conds, not(eq(r, a)))
 				}
+				for _, b := range tg.since {
+					conds = append(conds, tr.preExisting(r, b))
+				}
 			}
 			goal = implies(and(conds...), eq(sel(cur, r), sel(old, r)))
 		}
+		if tg == nil {
+			restGoals = append(restGoals, goal)
+			restKeys = append(restKeys, k)
+			continue
+		}
 		tr.oblige(fr, "assigns", k, "", fr.curReach, goal, pos, "frame: "+k+" changes only where the assigns clause allows")
+	}
+	// heap arrays the assigns clause does not mention at all: one obligation when there are many
+	if len(restKeys) > 3 {
+		tr.oblige(fr, "assigns", "others", "", fr.curReach, and(restGoals...), pos, "frame: nothing changes in "+strings.Join(restKeys, ", ")+" (not mentioned in the assigns clause)")
+	} else {
+		for i, k := range restKeys {
+			tr.oblige(fr, "assigns", k, "", fr.curReach, restGoals[i], pos, "frame: "+k+" changes only where the assigns clause allows")
+		}
 	}
 }
 
@@ -903,6 +925,7 @@ func innerIndexSort(arrSort string) string {
 
 type assignTarget struct {
 	all   bool
+	since []string // only objects at least as young as these references (allocation order) may change
 	refs  []string   // whole cells at these references
 	inner [][]string // (ref, index) or (ref, lo, hi) entries of nested arrays
 }
@@ -1010,6 +1033,89 @@ func (tr *Tr) assignTargets(fr *frame, c *Contract, env *specEnv) map[string]*as
 			}
 			t := get(tr.C.heldKey())
 			t.refs = append(t.refs, v.T)
+		case strings.HasPrefix(a, "since("):
+			// since(p) [but T1 T2]: any location of the object p points to (or is a member of) and of objects
+			// allocated after it; objects older than p are untouched. Fields of the struct types after
+			// `but` are not covered at all.
+			j := strings.Index(a, ")")
+			if j < 0 {
+				vfail("assigns %s: missing )", a)
+			}
+			// find the matching parenthesis
+			depth := 0
+			for i := 5; i < len(a); i++ {
+				if a[i] == '(' {
+					depth++
+				} else if a[i] == ')' {
+					depth--
+					if depth == 0 {
+						j = i
+						break
+					}
+				}
+			}
+			s, err := parseSpec(a[6:j])
+			if err != nil {
+				vfail("assigns %s: %v", a, err)
+			}
+			v, err := env.evalVal(s)
+			if err != nil {
+				vfail("assigns %s: %v", a, err)
+			}
+			ref := refOf(v)
+			tr.C.declare("owner", "(declare-fun owner (Int) Int)")
+			bound := ite(app("<", ref, "0"), app("owner", ref), ref)
+			var skip []string
+			rest := strings.TrimSpace(a[j+1:])
+			if strings.HasPrefix(rest, "but ") {
+				for _, tn := range strings.Fields(rest[4:]) {
+					t := env.resolveType(tn)
+					st, ok := t.Underlying().(*types.Struct)
+					if !ok {
+						vfail("assigns %s: %s is not a struct type", a, tn)
+					}
+					skip = append(skip, "F_"+mangle(structKey(t, st))+"_")
+				}
+			} else if rest != "" {
+				vfail("assigns %s: expected `but T...`", a)
+			}
+		skeys:
+			for _, k := range tr.C.sortedHeapKeys() {
+				if k == "ALLOC" || k == "HELD" || k == "REL" || strings.HasPrefix(k, "G_") {
+					continue
+				}
+				for _, p := range skip {
+					if strings.HasPrefix(k, p) {
+						continue skeys
+					}
+				}
+				t := get(k)
+				t.since = append(t.since, bound)
+			}
+		case strings.HasPrefix(a, "allbut "):
+			// allbut T1 T2 : every heap location (fields, cells, slice elements, maps) except the fields of
+			// objects of the named struct types; locks and ghost state are untouched
+			var skip []string
+			for _, tn := range strings.Fields(a[7:]) {
+				t := env.resolveType(tn)
+				st, ok := t.Underlying().(*types.Struct)
+				if !ok {
+					vfail("assigns %s: %s is not a struct type", a, tn)
+				}
+				skip = append(skip, "F_"+mangle(structKey(t, st))+"_")
+			}
+		keys:
+			for _, k := range tr.C.sortedHeapKeys() {
+				if k == "ALLOC" || k == "HELD" || k == "REL" || strings.HasPrefix(k, "G_") {
+					continue
+				}
+				for _, p := range skip {
+					if strings.HasPrefix(k, p) {
+						continue keys
+					}
+				}
+				get(k).all = true
+			}
 		case strings.HasPrefix(a, "any "):
 			// any T.f : field f of every object of type T
 			key, err := tr.fieldKeyByName(env, strings.TrimSpace(a[4:]))
@@ -1133,7 +1239,34 @@ func (tr *Tr) fieldKeyByName(env *specEnv, s string) (string, error) {
 }
 
 // allocSize hook (alloc_bound obligations) - filled in by contracts that ask for it
-func (tr *Tr) allocSize(fr *frame, n string, et types.Type, pos token.Pos) {}
+func (tr *Tr) allocSize(fr *frame, n string, et types.Type, pos token.Pos) {
+	tr.allocRequest(fr, n, pos, "make")
+}
+
+// allocRequest: an allocation request of n (64-bit term) elements, against the maxalloc clause of the
+// function under verification.
+func (tr *Tr) allocRequest(fr *frame, n string, pos token.Pos, what string) {
+	top := tr.topFrame
+	if top == nil || top.contract == nil || top.contract.MaxAlloc == nil || tr.pure > 0 {
+		return
+	}
+	c := top.contract
+	env := tr.entryEnv(top)
+	b, err := env.evalVal(c.MaxAlloc.S)
+	if err != nil {
+		vfail("%s: maxalloc: %v", top.fn, err)
+	}
+	if b.K != nil {
+		b = env.coerce(b, tInt)
+	}
+	lab := c.MaxAlloc.Label
+	if lab == "" {
+		lab = "maxalloc"
+	}
+	ob := tr.oblige(fr, "alloc", lab, c.MaxAlloc.Prop, fr.curReach, app("bvsle", n, to64(b)), pos,
+		what+": requested element count is at most "+c.MaxAlloc.Text)
+	ob.Witness = "(assert " + app("bvsge", n, bvI(1<<26, 64)) + ")"
+}
 
 // guardedAccess emits the lock-held obligation for accesses to guarded fields.
 func (tr *Tr) guardedAccess(fr *frame, addr ssa.Value, pos token.Pos) {
